@@ -2,7 +2,7 @@
 import itertools
 
 from ..core import hyp, findings
-from ..core.util import reset_library, cjson, exc_sig
+from ..core.util import reset_library, cjson, exc_sig, import_vsc
 from ..model import sem, gen, flat, render
 
 PROPERTY = "C04"
@@ -277,6 +277,8 @@ def _only_size(e, n):
 def pred_randsz(case):
     """a random-size list whose elements (foreach / sum / unique) are constrained: the library fixes the size before
     the elements are considered"""
+    if case.get("objlist"):
+        return case.get("ctor") == "randsz_list_t"
     return "randsz-size-coupled-to-elements" in shape_of(case)
 
 
@@ -353,6 +355,8 @@ def const_subscripts_ok(stmts, cur, lists):
 
 
 def run_case(case):
+    if case.get("objlist"):
+        return run_objlist(case)
     prog = case["prog"]
     cls = prog["classes"][0]
     lists = cls["lists"]
@@ -366,6 +370,8 @@ def run_case(case):
     for l in lists:
         types[l["name"] + "[]"] = l["elem"]
     info = {"returned": 0, "len2": False}
+    if any(l["mode"] != "randsz" and len(l.get("init", [])) != l.get("size", 0) for l in lists):
+        return [], info          # not a generated shape (the structural reducer shortened an initial list)
     if not lists or any(l["mode"] == "randsz" and not any(s[0] == "expr" and "sz" in cjson(s) for s in stmts) for l in lists):
         return [], info
     reset_library()
@@ -494,6 +500,175 @@ def run_case(case):
     return [], info
 
 
+
+
+# ------------------------------------------------------------------------------------------------
+# family: lists of OBJECTS - the list facade keeps the Python objects, the model keeps their field models; every edit
+# (append, clear, l[k] = obj) and every random-size truncation has to keep the two aligned
+OBJ_SRC = """
+@vsc.randobj
+class E(object):
+    def __init__(self, tag):
+        self.tag = tag
+        self.a = vsc.rand_bit_t(3)
+
+@vsc.randobj
+class T(object):
+    def __init__(self, n):
+        self.k = vsc.bit_t(2)
+        self.l = vsc.%(ctor)s(E(-1))
+        for i in range(n):
+            self.l.append(E(i))
+    @vsc.constraint
+    def c0(self):
+%(size_stmt)s        with vsc.foreach(self.l, idx=True) as i:
+            self.l[i].a %(op)s i + self.k
+"""
+OBJ_OPS = {"==": lambda a, b: a == b, "!=": lambda a, b: a != b, "<": lambda a, b: a < b, "<=": lambda a, b: a <= b,
+           ">": lambda a, b: a > b, ">=": lambda a, b: a >= b}
+
+
+@hyp.composite
+def objlist_cases(d):
+    mode = d.choice(["rand_list_t", "rand_list_t", "randsz_list_t", "list_t"])
+    n = d.randint(0, 4)
+    case = {"objlist": True, "ctor": mode, "n": n, "op": d.choice(["==", "!=", "<", "<=", ">", ">="]), "k": d.randint(0, 3)}
+    if mode == "randsz_list_t":
+        lo = d.randint(0, 2)
+        case["size"] = [lo, d.randint(lo, 4)]
+    ops = [["call", d.seed()]]
+    for _ in range(d.randint(1, 6)):
+        r = d.randint(0, 99)
+        if r < 40:
+            ops.append(["call", d.seed()])
+        elif r < 60:
+            ops.append(["append"])
+        elif r < 72:
+            ops.append(["clear"])
+        elif r < 88:
+            ops.append(["setitem", d.randint(0, 3)])
+        else:
+            ops.append(["setk", d.randint(0, 3)])
+    ops.append(["call", d.seed()])
+    case["ops"] = ops
+    return case
+
+
+def objlist_source(case):
+    sz = ""
+    if case.get("size"):
+        sz = "        self.l.size.inside(vsc.rangelist(vsc.rng(%d, %d)))\n" % tuple(case["size"])
+    return OBJ_SRC % {"ctor": case["ctor"], "size_stmt": sz, "op": case["op"]}
+
+
+def run_objlist(case):
+    import enum as _enum
+    vsc = import_vsc()
+    info = {"returned": 0, "len2": False, "edits": 0}
+    if case.get("ctor") not in ("rand_list_t", "randsz_list_t", "list_t") or case.get("op") not in OBJ_OPS:
+        return [], info
+    src = objlist_source(case)
+    text = src + "# T(%d), k=%d; ops: %s" % (case["n"], case["k"], cjson(case["ops"]))
+
+    def Vo(kind, detail, extra):
+        return {"property": PROPERTY, "kind": kind, "detail": detail, "case": case, "text": text + "\n# " + extra}
+    reset_library()
+    try:
+        ns = {"vsc": vsc, "enum": _enum}
+        exec(compile(src, "<pvs-c04-obj>", "exec"), ns)
+        top = ns["T"](case["n"])
+        top.k = case["k"]
+        cur = list(top.l)
+    except Exception as e:
+        reset_library()
+        return [Vo("library_exception", "construction: " + exc_sig(e), repr(e)[:300])], info
+    k = case["k"]
+    op = OBJ_OPS[case["op"]]
+    tag = [100]
+    removed = []      # objects that left the list, with the value they had then
+    rand_elems = case["ctor"] != "list_t"
+
+    def feasible(i, o):
+        if rand_elems:
+            return any(op(a, i + k) for a in range(8))
+        return op(int(o.a), i + k)
+    for step, o_ in enumerate(case["ops"]):
+        where = "step %d %s" % (step, cjson(o_))
+        try:
+            if o_[0] == "append":
+                tag[0] += 1
+                e = ns["E"](tag[0])
+                top.l.append(e)
+                cur.append(e)
+                info["edits"] += 1
+            elif o_[0] == "clear":
+                removed += [(e, int(e.a)) for e in cur]
+                top.l.clear()
+                cur = []
+                info["edits"] += 1
+            elif o_[0] == "setitem":
+                if o_[1] < len(cur):
+                    tag[0] += 1
+                    e = ns["E"](tag[0])
+                    removed.append((cur[o_[1]], int(cur[o_[1]].a)))
+                    top.l[o_[1]] = e
+                    cur[o_[1]] = e
+                    info["edits"] += 1
+            elif o_[0] == "setk":
+                top.k = o_[1]
+                k = o_[1]
+        except Exception as e:
+            reset_library()
+            return [Vo("library_exception", "%s: %s" % (o_[0], exc_sig(e)), where + " raised %r" % (e,))], info
+        if o_[0] != "call":
+            got = list(top.l)
+            if len(got) != len(cur) or any(a is not b for a, b in zip(got, cur)) or len(top.l) != len(cur) or \
+                    any(top.l[i] is not cur[i] for i in range(len(cur))):
+                return [Vo("edit_on_wrong_list", "an edit of an object list did not act on exactly the exposed list", 
+                           where + ": list holds tags %s, expected %s" % ([getattr(x, "tag", "?") for x in got], [x.tag for x in cur]))], info
+            continue
+        # reference: which sizes are possible
+        if case.get("size"):
+            sizes = [s_ for s_ in range(case["size"][0], case["size"][1] + 1) if s_ <= len(cur) and all(feasible(i, cur[i]) for i in range(s_))]
+        else:
+            sizes = [len(cur)] if all(feasible(i, cur[i]) for i in range(len(cur))) else []
+        before = [int(e.a) for e in cur]
+        st, exc = flat.do_call(ns, top, "randomize", None, o_[1])
+        if st == "exc":
+            reset_library()
+            return [Vo("library_exception", "randomize: " + exc.sig, where + " raised %r" % (exc,))], info
+        if st == "sf":
+            if sizes:
+                return [Vo("spurious_solve_failure", "randomize", where + ": object list: sizes %s are possible (tags %s, k=%d)" % (sizes, [e.tag for e in cur], k))], info
+            if case.get("size"):
+                return [], info          # (contents of a random-size list after a failed call are not specified)
+            continue
+        info["returned"] += 1
+        got = list(top.l)
+        n = len(top.l)
+        if not (n == top.l.size == len(got)) or any(top.l[i] is not got[i] for i in range(n)):
+            return [Vo("length_disagree", "len(), size, indexing and iteration of an object list disagree", where + ": len=%d size=%d iterated=%d" % (n, top.l.size, len(got)))], info
+        if not sizes:
+            return [Vo("returned_on_unsat", "object list", where + " returned tags %s" % [getattr(x, "tag", "?") for x in got])], info
+        if n not in sizes or any(a is not b for a, b in zip(got, cur[:n])):
+            return [Vo("list_constraint_violated", "the exposed object list is not the first 'size' objects / has a size the constraints exclude", 
+                       where + ": exposes tags %s, list before the call %s, possible sizes %s" % ([getattr(x, "tag", "?") for x in got], [x.tag for x in cur], sizes))], info
+        for i, e in enumerate(got):
+            if not op(int(e.a), i + k):
+                return [Vo("list_constraint_violated", "a foreach body over a list of objects does not hold on the list the user sees", 
+                           where + ": element %d (tag %s) has a=%d, body: a %s %d" % (i, e.tag, int(e.a), case["op"], i + k))], info
+            if not rand_elems and int(e.a) != before[i]:
+                return [Vo("nonrandom_list_changed", "an element of a non-random object list changed", where)], info
+        removed += [(e, int(e.a)) for e in cur[n:]]
+        cur = got
+        for e, v in removed:
+            if int(e.a) != v:
+                return [Vo("edit_on_wrong_list", "an object that is no longer in the list was randomized", where + ": tag %s a %d -> %d" % (e.tag, v, int(e.a)))], info
+        if n >= 2:
+            info["len2"] = True
+    return [], info
+
+
 def couples(case):
     for s in case["prog"]["classes"][0]["blocks"][0]["stmts"]:
         t = cjson(s)
@@ -506,6 +681,13 @@ def couples(case):
 
 def body(case, acc):
     vios, info = run_case(case)
+    if case.get("objlist"):
+        acc.case(case, info.get("returned", 0) > 0 and info.get("len2", False) and info.get("edits", 0) > 0, sample=objlist_source(case))
+        acc.label("family:lists of objects")
+        acc.label("list:objects:" + case["ctor"])
+        for o_ in case["ops"]:
+            acc.label("op(obj):" + o_[0])
+        return vios
     nt = info.get("returned", 0) > 0 and info.get("len2") and couples(case)
     acc.case(case, bool(nt), sample=text_of(case))
     cls = case["prog"]["classes"][0]
@@ -521,11 +703,12 @@ def body(case, acc):
 
 
 def shards(tier):
-    return [{"i": i, "n": 90 if tier == "quick" else 2500} for i in range(16)]
+    return [{"i": i, "n": 90 if tier == "quick" else 2500} for i in range(15)] + \
+        [{"kind": "objlist", "i": 0, "n": 250 if tier == "quick" else 6000}]
 
 
 def run_shard(spec, seed, tier, acc):
-    hyp.drive(cases(), body, seed, spec["n"], acc)
+    hyp.drive(objlist_cases() if spec.get("kind") == "objlist" else cases(), body, seed, spec["n"], acc)
 
 
 def replay(case):
